@@ -306,6 +306,10 @@ def property_on_impl(c, o):
         k = "shift-smooth"
     if o.get("inv") is not None and k != "logdiff":
         tol = 1e-8
+        if k == "ratio":
+            # (see c06.ratio_roundtrip_tolerance: the accuracy of a recovered ratio follows the conditioning)
+            nh = c06.leaf_heights(c["dates"]) + list(o["y"])
+            tol = c06.ratio_roundtrip_tolerance(c, nh, 1e-8)
         for i, (a, b) in enumerate(zip(o["inv"], x)):
             if tol is not None and not (abs(a - b) <= tol * max(1.0, abs(b))):
                 return "inverse", f"inv(forward(x))[{i}] = {a!r} but x[{i}] = {b!r}"
